@@ -53,8 +53,14 @@ func c18Transcripts(c *kc.Ctx) []kc.Case {
 		for _, g := range insts {
 			allBase = allBase && groupCaps(g).base
 		}
-		for i := 0; i < nProg; i++ {
-			p := genProg(rng.Fork(fmt.Sprint(i)), ref.Q, plen, src, allBase, true)
+		bnd := boundaryProgs(rng.Fork("boundary"), ref.Q, src, allBase)
+		for i := 0; i < nProg+len(bnd); i++ {
+			var p prog
+			if i < nProg {
+				p = genProg(rng.Fork(fmt.Sprint(i)), ref.Q, plen, src, allBase, true)
+			} else {
+				p = bnd[i-nProg]
+			}
 			for _, g := range insts {
 				got, _ := runProg(g, p, true, false)
 				line := "nomodel " + m + " " + p.String()
